@@ -8,11 +8,11 @@ def run(ctx):
     b = ctx.go_test_binary("fs/layer", "h_layer_c15", only=["c02", "c15"])
     if b:
         ctx.correspond(b, "TestVerifC15", "svdriver_c15", "c15",
-                       env={"VERIF_N": 48 if quick else 400}, timeout=900 if quick else 3000)
+                       env={"VERIF_N": 48 if quick else 250}, timeout=900 if quick else 3000)
     bdb = ctx.go_test_binary("containerd-stargz-grpc/db", "h_db_c15", module_dir="cmd", only=["c02", "c15"])
     if bdb:
         ctx.correspond(bdb, "TestVerifC15DB", "svdriver_c15", "c15db",
-                       env={"VERIF_N": 24 if quick else 150}, timeout=900 if quick else 3000)
+                       env={"VERIF_N": 24 if quick else 120}, timeout=900 if quick else 3000)
     return ctx.finish(
         level="proof",
         rule="layers built by the real builder from random archives, in the three landmark situations (prefetch "
